@@ -32,6 +32,9 @@ FIXED_PROGRAMS = [
     'OPENQASM 3.0;\ninclude "stdgates.inc";\nqubit[5] q;\nqubit[3] r;\nbit[2] c;\nh q[0];\ncx q[0], q[1];\nx r[0];\nc[0] = measure q[1];\nif (c[0] == 1) {\n  z r[0];\n  cx q[1], r[0];\n}\n',
     # a qubit touched only by barriers (idle once they are removed), another never touched, an operation across the gap
     'OPENQASM 3.0;\ninclude "stdgates.inc";\nqubit[5] q;\nbit[1] c;\nh q[0];\nbarrier q[2];\ncx q[0], q[4];\nbarrier q[0], q[2];\nc[0] = measure q[4];\n',
+    # measured-only and barrier-only qubits on both sides of the qubits that carry gates: removals make qubits idle below
+    # AND above the survivors, in an order that is not ascending in the bookkeeping
+    'OPENQASM 3.0;\ninclude "stdgates.inc";\nqubit[6] a;\nqubit[3] b;\nbit[3] c;\nc[0] = measure a[0];\ncx a[2], a[3];\nc[1] = measure a[5];\nbarrier a[1];\nx b[1];\nc[2] = measure b[2];\nbarrier b[0];\n',
     # declarations without a literal size (a visit rewrites them)
     'OPENQASM 3.0;\ninclude "stdgates.inc";\nconst int[8] n = 3;\nqubit[n] q;\nqubit a;\nbit c;\nh q[0];\ncx q[0], a;\nbarrier q[1], a;\nc = measure a;\n',
     # OpenQASM 2 modules go through the same machinery (their own accept / printer)
@@ -83,6 +86,24 @@ def enumerated(rnd, ops, family, before=((), ("unroll",), ("validate",)), after=
                             body.append((tgt, q, True) if q in modcorr.TRANSFORMS else (tgt, q))
                         hist, nobs = hist_with_obs(rnd, body, nmod)
                         out.append(dict(src=src, hist=hist, nobs=nobs, family=family))
+    return out
+
+
+def conversion_histories(rnd, family):
+    """to_qasm3() in the middle of a history: the version-3 module it returns holds the version-2 module's CURRENT
+    program and is independent of it (transformations of either leave the other alone)"""
+    out = []
+    q2 = [p for p in FIXED_PROGRAMS if p.startswith("OPENQASM 2")]
+    q3 = [p for p in FIXED_PROGRAMS if not p.startswith("OPENQASM 2")][:2]
+    for src in q2 + q3:
+        for pre in ((), ("unroll",), ("remove_barriers",), ("remove_measurements", "validate"), ("reverse_qubit_order",), ("remove_idle_qubits", "depth")):
+            for post0 in ((), ("remove_idle_qubits",), ("remove_barriers",)):
+                for post1 in ((), ("remove_idle_qubits",), ("reverse_qubit_order", "unroll"), ("remove_measurements",)):
+                    body = [((0, q, True) if q in modcorr.TRANSFORMS else (0, q)) for q in pre] + [(0, "to_qasm3")]
+                    body += [((0, q, True) if q in modcorr.TRANSFORMS else (0, q)) for q in post0]
+                    body += [((1, q, True) if q in modcorr.TRANSFORMS else (1, q)) for q in post1]
+                    hist, nobs = hist_with_obs(rnd, body, 2)
+                    out.append(dict(src=src, hist=hist, nobs=nobs, family=family))
     return out
 
 
